@@ -172,12 +172,17 @@ def byte_tensor(shape, fill, seed):
 
 @st.composite
 def bytes_cases(draw):
+    shape = draw(gen.shapes(1, 4, 1, 7))
+    layout = list(draw(gen.layouts))
+    if len(shape) >= 2 and draw(st.integers(0, 7)) == 0:
+        shape[draw(st.integers(1, len(shape) - 1))] = 0  # an empty trailing dimension: nothing to unpack, but the row count still multiplies
+        layout = ["contig", 0]
     return {
         "bits": draw(st.sampled_from([2, 4])),
-        "shape": draw(gen.shapes(1, 4, 1, 7)),
+        "shape": shape,
         "fill": draw(st.sampled_from(["arange", "rand", "rand", 255, 0])),
         "seed": draw(st.integers(0, 2**16)),
-        "layout": list(draw(gen.layouts)),
+        "layout": layout,
     }
 
 
@@ -199,12 +204,16 @@ def value_cases(draw):
     shape = draw(gen.shapes(1, 4, 1, 9))
     if draw(st.booleans()):
         shape[0] = draw(st.integers(1, 41))
+    layout = list(draw(gen.layouts))
+    if len(shape) >= 2 and draw(st.integers(0, 9)) == 0:
+        shape[draw(st.integers(1, len(shape) - 1))] = 0
+        layout = ["contig", 0]
     return {
         "bits": bits,
         "shape": shape,
         "seed": draw(st.integers(0, 2**16)),
         "fill": draw(st.sampled_from(["rand", "rand", "max", "alt"])),
-        "layout": list(draw(gen.layouts)),
+        "layout": layout,
     }
 
 
